@@ -100,7 +100,7 @@ func record(key, desc string, replay any, weight int) {
 	}
 }
 
-var reNum = regexp.MustCompile(`0x[0-9a-fA-F]+|[0-9]+`)
+var reNum = regexp.MustCompile(`0x[0-9a-fA-F]+|[0-9a-fA-F]{8,}|[0-9]+`)
 var reQuoted = regexp.MustCompile(`"[^"]*"|'[^']*'`)
 
 // errClass reduces an error text to a stable class (no numbers, no names).
